@@ -11,7 +11,7 @@ namespace AsmjitVerif.CodeHolder
 open AsmjitVerif.Offset
 open AsmjitVerif.RefSpec
 
-private theorem ite_none_some {α : Type} (c : Prop) [Decidable c] (x : Option α) (w : α)
+theorem ite_none_some {α : Type} (c : Prop) [Decidable c] (x : Option α) (w : α)
     (h : (if c then none else x) = some w) : ¬ c ∧ x = some w := by
   by_cases hc : c
   · rw [if_pos hc] at h; cases h
